@@ -654,6 +654,123 @@ def _copy_prop(fn):
             break
 
 
+_PURE_BUILTINS = ('len', 'min', 'max', 'abs', 'int', 'bool', 'isinstance', 'sum', 'any', 'all')
+_READ_METHODS = ('get', 'items', 'keys', 'values', 'copy', 'count', 'index', 'startswith', 'endswith', 'is_set', 'difference',
+                 'intersection', 'union', 'issubset', 'format', 'hex', 'decode', 'encode', 'join')
+
+
+def _pure_local_expr(e):
+    """an expression over plain locals, constants, operators and side-effect free builtins only: its value can change only
+    when one of its names is re-bound or the object behind one of them is mutated"""
+    for x in ast.walk(e):
+        if isinstance(x, ast.Call):
+            if not (isinstance(x.func, ast.Name) and x.func.id in _PURE_BUILTINS and not x.keywords):
+                return False
+        elif not isinstance(x, (ast.Name, ast.Constant, ast.BinOp, ast.UnaryOp, ast.BoolOp, ast.Compare, ast.IfExp, ast.Tuple,
+                                ast.expr_context, ast.operator, ast.unaryop, ast.boolop, ast.cmpop)):
+            return False          # no displays (a new object each time), no attribute / subscript reads, nothing lazy
+    return True
+
+
+def _disturbs(node, names):
+    """may executing `node` change the value of an expression over `names`?  (re-binding, augmented assignment, deletion,
+    a method call on one of them other than a known reader, passing one of them to a call that is not a pure builtin,
+    storing into one of them)"""
+    for x in ast.walk(node):
+        if isinstance(x, ast.Name) and x.id in names and isinstance(x.ctx, (ast.Store, ast.Del)):
+            return True
+        if isinstance(x, (ast.Subscript, ast.Attribute)) and isinstance(x.ctx, (ast.Store, ast.Del)) and isinstance(x.value, ast.Name) \
+                and x.value.id in names:
+            return True
+        if isinstance(x, ast.Call):
+            if isinstance(x.func, ast.Attribute) and isinstance(x.func.value, ast.Name) and x.func.value.id in names \
+                    and x.func.attr not in _READ_METHODS:
+                return True
+            if not (isinstance(x.func, ast.Name) and x.func.id in _PURE_BUILTINS + ('set', 'list', 'tuple', 'sorted', 'dict', 'frozenset', 'str', 'bytes', 'repr', 'enumerate', 'zip', 'reversed', 'range')):
+                for a in list(x.args) + [k.value for k in x.keywords]:
+                    if isinstance(a, ast.Name) and a.id in names:
+                        return True
+        if isinstance(x, (ast.FunctionDef, ast.AsyncFunctionDef, ast.Lambda)) and any(
+                isinstance(y, ast.Name) and y.id in names for y in ast.walk(x)):
+            return True
+    return False
+
+
+def _propagate_pure(fn):
+    """N14: t = E with E pure over locals (see _pure_local_expr), t bound once: every read of t becomes E when all reads
+    follow the binding in the same statement list and nothing executed in between can change E.  Undoes "extract a
+    sub-expression into a well-named local" also when the local is read more than once or not right away."""
+    for _round in range(8):
+        loads, stores, declared = _name_counts(fn)
+        done = False
+        for parent in [fn] + [n for n in _own_walk(fn) if not isinstance(n, (ast.FunctionDef, ast.AsyncFunctionDef, ast.ClassDef, ast.Lambda))]:
+            for fld in ('body', 'orelse', 'finalbody'):
+                body = getattr(parent, fld, None)
+                if not (isinstance(body, list) and body and isinstance(body[0], ast.stmt)):
+                    continue
+                for k, st in enumerate(body):
+                    if not (isinstance(st, ast.Assign) and len(st.targets) == 1 and isinstance(st.targets[0], ast.Name)):
+                        continue
+                    t, e = st.targets[0].id, st.value
+                    if isinstance(e, (ast.Constant, ast.Name)) or not _pure_local_expr(e):
+                        continue
+                    if t in declared or stores.get(t, 0) != 1 or loads.get(t, 0) == 0:
+                        continue
+                    names = {x.id for x in ast.walk(e) if isinstance(x, ast.Name)}
+                    if t in names or any(stores.get(nm, 0) == 0 and nm not in _PURE_BUILTINS for nm in names if nm not in _PURE_BUILTINS) and False:
+                        continue
+                    # every read of t lies in the statements after the binding, up to the last one that reads it
+                    total = loads.get(t, 0)
+                    seen, last = 0, None
+                    for j in range(k + 1, len(body)):
+                        c = _count_loads_in(body[j], t)
+                        if c:
+                            seen += c
+                            last = j
+                    if seen != total or last is None:
+                        continue
+                    ok = True
+                    for j in range(k + 1, last + 1):
+                        sj = body[j]
+                        if not _disturbs(sj, names):
+                            continue
+                        # a statement that may change E is fine only as the last reader, reading t in its head alone,
+                        # and if that head is evaluated once (no loop)
+                        heads = _head_fields(sj)
+                        in_head = sum(_count_loads_in(getattr(n_, f_), t) for n_, f_ in heads if getattr(n_, f_) is not None)
+                        if j == last and not isinstance(sj, (ast.For, ast.AsyncFor, ast.While)) and in_head == _count_loads_in(sj, t) \
+                                and not any(_disturbs(getattr(n_, f_), names) for n_, f_ in heads if getattr(n_, f_) is not None):
+                            continue
+                        ok = False
+                        break
+                    if not ok:
+                        continue
+                    # a read inside a loop body is repeated: nothing in that loop may change E either
+                    for j in range(k + 1, last + 1):
+                        for lp in [x for x in ast.walk(body[j]) if isinstance(x, (ast.For, ast.AsyncFor, ast.While))]:
+                            if _count_loads_in(lp, t) and _disturbs(lp, names):
+                                ok = False
+                    if not ok:
+                        continue
+                    body.remove(st)
+
+                    class R(ast.NodeTransformer):
+                        def visit_Name(self, n):
+                            if n.id == t and isinstance(n.ctx, ast.Load):
+                                return ast.copy_location(fast_copy(e), n)
+                            return n
+                    for j in range(k, last):
+                        body[j] = R().visit(body[j])
+                    done = True
+                    break
+                if done:
+                    break
+            if done:
+                break
+        if not done:
+            break
+
+
 def normalize(tree, relpath=None):
     _unannotate(tree)
     _split_tuple_assign(tree)
@@ -697,6 +814,8 @@ def normalize(tree, relpath=None):
     for n in ast.walk(tree):
         if isinstance(n, (ast.FunctionDef, ast.AsyncFunctionDef)):
             _copy_prop(n)
+            if not os.environ.get('VERIF_NO_N14'):
+                _propagate_pure(n)
     for n in ast.walk(tree):
         if isinstance(n, (ast.FunctionDef, ast.AsyncFunctionDef)) and not os.environ.get('VERIF_NO_N11'):
             _loops_to_comprehensions(n)
@@ -969,13 +1088,20 @@ def _inline_new_helpers(tree, relpath):
     known = set(ref.get(relpath, {}).get('functions', []))
     helpers = {}     # ('Class' or '', name) -> FunctionDef
 
-    def collect(owner, cls):
+    all_names = [x.name for x in ast.walk(tree) if isinstance(x, (ast.FunctionDef, ast.AsyncFunctionDef))]
+
+    def collect(owner, cls, qual=''):
         for n in owner.body:
-            if isinstance(n, ast.ClassDef):
+            if isinstance(n, ast.ClassDef) and not qual:
                 collect(n, n.name)
             elif isinstance(n, (ast.FunctionDef, ast.AsyncFunctionDef)):
-                q_ = (cls + '.' if cls else '') + n.name
+                q_ = (qual + '.' if qual else (cls + '.' if cls else '')) + n.name
                 decos = [ast.unparse(d_) for d_ in n.decorator_list]
+                nested = bool(qual)
+                # closures defined inside a function: candidates too when the name is unique in the unit
+                collect(n, cls, q_)
+                if nested and (all_names.count(n.name) != 1 or decos):
+                    continue
                 if q_ not in known and all(d_ in ('staticmethod', 'classmethod') for d_ in decos) and not n.args.vararg and not n.args.kwarg \
                         and not any(isinstance(x, (ast.FunctionDef, ast.AsyncFunctionDef, ast.Lambda, ast.Global, ast.Nonlocal)) for x in _own_walk(n)):
                     h_ = fast_copy(n)
@@ -988,7 +1114,8 @@ def _inline_new_helpers(tree, relpath):
                         h_._verif_classm = 'classmethod' in decos
                         h_._verif_orig = n
                         h_._verif_owner = owner
-                        helpers[(cls, n.name)] = h_
+                        h_._verif_nested = nested
+                        helpers[('', n.name) if nested else (cls, n.name)] = h_
     collect(tree, '')
     if not helpers:
         return
@@ -1270,7 +1397,7 @@ def _inline_new_helpers(tree, relpath):
     # other units, and a helper nobody called here was not "inlined away")
     for (cls, name), h in helpers.items():
         orig = h._verif_orig
-        if not name.startswith('_') or not getattr(h, '_verif_inlined', 0):
+        if not (name.startswith('_') or h._verif_nested) or not getattr(h, '_verif_inlined', 0):
             continue
         inside = {id(x) for x in ast.walk(orig)}
         used = False
